@@ -364,7 +364,7 @@ class Ex:
 
     def truth(self, v):
         k = v.ty.kind
-        if k == "bool":
+        if k in ("bool", "elembool"):
             return v.t
         if k == "int":
             return v.t != 0
@@ -1388,6 +1388,8 @@ class Ex:
 
     def call_function(self, fi, self_val, args, kwargs, fr, node, static=False, env=None):
         con = spec.CONTRACTS.get(fi.qual)
+        if con is None and getattr(self, "elem_tier", None):
+            con = spec.CONTRACTS.get(f"{fi.qual}#{self.elem_tier}")      # tier-specific contract of a coordinate-view helper
         if con is not None and (con.heapfn or con.value is not None) and not con.inline:
             return self.apply_pure(con, fi, self_val, args, kwargs, fr, node)
         if fr.spec:
